@@ -76,6 +76,26 @@ def gen_cases(rnd, n):
     return cases
 
 
+BIG = ['9007199254740993', '9007199254740995', '18014398509481985', '9007199254740992', '-9007199254740993', '123456789012345678901', '36028797018963969', '1']
+
+
+def gen_bigint_cases(rnd, n):
+    """whole numbers beyond 2**53 given as strings (64-bit ids, nanosecond timestamps): the integer aggregates are exact in Python,
+    so a detour through a double shows.  Python only (a JS number cannot hold them); AVG / VARIANCE / even MEDIAN divide in floating point."""
+    cases = []
+    for _ in range(n):
+        grouped = rnd.random() < 0.5
+        nrows = rnd.choice([1, 3, 5]) if not grouped else rnd.randint(1, 6)
+        as_numbers = rnd.random() < 0.25
+        A = [[rnd.choice(['x', 'y']), (qgen.num(int(v)) if as_numbers else v)] for v in (rnd.choice(BIG) for _r in range(nrows))]
+        kinds = ['min', 'max', 'sum', 'count', 'any_value', 'array_agg'] + ([] if grouped else ['median'])
+        q = {'items': ([{'e': ['a', 0]}] if grouped else []) + [{'agg': rnd.choice(kinds), 'e': ['a', 1]} for _i in range(rnd.randint(1, 3))]}
+        if grouped:
+            q['group'] = [['a', 0]]
+        cases.append({'q': q, 'A': A, 'B': None})
+    return cases
+
+
 def run(res, tier, seed):
     res.rule = RULE
     res.assumptions = ['numeric arguments are homogeneous numeric strings (grammar -?d+(.d+)?) or numbers', 'group keys of one type',
@@ -93,6 +113,9 @@ def run(res, tier, seed):
         res.sample({'query': qgen.render_query(c['q'], 'py'), 'A': c['A']})
     engine_corr.run_cases(res, 'C03', cases, 'py', rnd=random.Random(seed + 7))
     engine_corr.js_leg(res, 'C03', cases, rnd=random.Random(seed + 107))
+    big = gen_bigint_cases(random.Random(seed * 17 + 3), 400 if tier == 'quick' else 6000)
+    res.count('bigint_cases(beyond 2**53, Python only)', len(big))
+    engine_corr.run_cases(res, 'C03', big, 'py', rnd=random.Random(seed + 8))
     builtin_dispatch_check(res)
 
 
